@@ -67,14 +67,65 @@ func main() {
 	boltOpenArgs := []string{}
 	// decision logic, per property: the full (comment-free, whitespace-normalised) text of the small functions
 	// that decide plans, windows, counts and ranges
-	logicFns := map[string]string{
-		"clover..buildQueryPlan": "C08", "clover..tryToSelectIndex": "C02", "clover..getIndexQueries": "C02",
-		"clover.skipLimitNode.Callback": "C08", "clover.sortNode.Finish": "C08", "clover.sortNode.Callback": "C08", "clover..compareDocuments": "C08",
-		"clover.DB.countCollection": "C09", "clover.DB.Exists": "C09", "clover.DB.FindFirst": "C09", "clover.DB.Count": "C09",
-		"query..normalizeSortOptions": "C08", "query.Query.Skip": "C08", "query.Query.Limit": "C08", "query.Query.Sort": "C08",
-		"index.Range.IsEmpty": "C17", "index.Range.IsNil": "C17", "index.Range.Intersect": "C17",
-		"clover.iterNode.iterateIndex": "C02", "clover.iterNode.iterateFullCollection": "C02",
+	logicFns := map[string]string{}
+	// function groups -> the properties whose model was transcribed from them (space separated)
+	groups := []struct {
+		props string
+		fns   []string
+	}{
+		{"C08", []string{"clover..buildQueryPlan", "clover.skipLimitNode.Callback", "clover.sortNode.Finish", "clover.sortNode.Callback", "clover..compareDocuments",
+			"query..normalizeSortOptions", "query.Query.Skip", "query.Query.Limit", "query.Query.Sort", "clover..execPlan", "clover.consumerNode.Callback"}},
+		{"C02", []string{"clover..tryToSelectIndex", "clover..getIndexQueries", "clover.iterNode.iterateIndex", "clover.iterNode.iterateFullCollection", "clover.iterNode.Run",
+			"clover.NotFlattenVisitor.VisitUnaryCriteria", "clover.NotFlattenVisitor.VisitBinaryCriteria", "clover.NotFlattenVisitor.VisitNotCriteria", "clover.NotFlattenVisitor.removeNotCriteria",
+			"clover.IndexSelectVisitor.VisitUnaryCriteria", "clover.IndexSelectVisitor.VisitBinaryCriteria", "clover.IndexSelectVisitor.VisitNotCriteria",
+			"clover.FieldRangeVisitor.VisitUnaryCriteria", "clover.FieldRangeVisitor.VisitBinaryCriteria", "clover.FieldRangeVisitor.VisitNotCriteria", "clover..unaryCriteriaToRange",
+			"index.RangeIndexQuery.Run"}},
+		{"C09", []string{"clover.DB.countCollection", "clover.DB.Exists", "clover.DB.FindFirst", "clover.DB.Count", "clover.DB.FindAll", "clover.DB.IterateDocs", "clover.DB.ForEach",
+			"clover.DB.FindById", "clover..getDocumentById", "clover.DB.getCollectionSize"}},
+		{"C17", []string{"index.Range.IsEmpty", "index.Range.IsNil", "index.Range.Intersect", "index.rangeIndex.encodeRange", "index.rangeIndex.IterateRange", "index.rangeIndex.Iterate"}},
+		{"C16 C01", []string{"query.NotCriteria.Satisfy", "query.BinaryCriteria.Satisfy", "query.UnaryCriteria.Satisfy", "query..getFieldOrValue", "query.UnaryCriteria.compare",
+			"query.UnaryCriteria.exist", "query.UnaryCriteria.eq", "query.UnaryCriteria.in", "query.UnaryCriteria.contains", "query.UnaryCriteria.like", "query..IsField",
+			"query..and", "query..or", "query..not", "query..newCriteria", "query.field.Neq", "query.field.NotExists", "query.field.In", "query.field.Contains", "query.field.Eq",
+			"clover.CriteriaNormalizeVisitor.VisitUnaryCriteria", "clover.CriteriaNormalizeVisitor.VisitBinaryCriteria", "clover.CriteriaNormalizeVisitor.VisitNotCriteria",
+			"clover..normalizeOperand", "clover..isFieldReference", "clover..normalizeCriteria", "query.Query.satisfy"}},
+		{"C01", []string{"clover.DB.FindAll", "clover.DB.IterateDocs", "clover.DB.iterateDocs", "clover.iterNode.iterateIndex", "clover.iterNode.iterateFullCollection"}},
+		{"C03", []string{"clover.DB.Update", "clover.DB.UpdateFunc", "clover.DB.replaceDocs", "clover.DB.Delete", "clover.DB.iterateDocs", "clover.DB.DropCollection", "clover.DB.deleteAll"}},
+		{"C06", []string{"clover.DB.insertDocs", "clover.DB.addDocToIndexes", "clover.DB.getIndexes", "clover.DB.updateIndexesOnDocUpdate", "clover.DB.deleteDocFromIndexes",
+			"clover.DB.getDocAndDeleteFromIndexes", "clover.DB.DeleteById", "clover.DB.replaceDocs", "clover.DB.UpdateById", "clover.DB.createIndex", "clover.DB.DropIndex", "clover.DB.deleteAll",
+			"clover.DB.saveCollectionMetadata", "index.rangeIndex.Add", "index.rangeIndex.Remove", "index.rangeIndex.Drop", "index.rangeIndex.encodeValueAndId"}},
+		{"C12", []string{"clover.DB.Insert", "clover.DB.InsertOne", "clover..assignObjectIds", "clover.DB.insertDocs", "clover..saveDocument", "clover.DB.Save", "clover.DB.UpdateById",
+			"clover.DB.ReplaceById", "document..Validate", "document..isValidObjectId", "document.Document.ObjectId", "clover.DB.FindById", "clover..getDocumentById"}},
+		{"C13", []string{"clover.DB.CreateCollection", "clover.DB.createCollection", "clover.DB.DropCollection", "clover.DB.deleteAll", "clover.DB.HasCollection", "clover.DB.hasCollection",
+			"clover.DB.ListCollections", "clover.DB.saveCollectionMetadata", "clover.DB.getCollectionMeta", "clover..iteratePrefix", "clover.DB.CreateCollectionByQuery", "clover.DB.createCollectionWith"}},
+		{"C14", []string{"clover.DB.CreateIndex", "clover.DB.createIndex", "clover.DB.HasIndex", "clover.DB.hasIndex", "clover.DB.DropIndex", "clover.DB.ListIndexes", "clover.DB.listIndexes",
+			"clover.DB.getIndexes", "index.rangeIndex.Drop", "index.rangeIndex.Add"}},
+		{"C10", []string{"internal..TypeId", "internal..compareTypes", "internal..compareSlices", "internal..compareNumbers", "internal..toUint64", "internal..compareInt64", "internal..compareUint64",
+			"internal..Compare", "internal..compareObjects", "internal..getEncodeValue", "internal..orderedCodePrimitive", "internal..OrderedCode", "internal..orderedCode", "internal..orderedCodeSlice",
+			"internal..orderedCodeObject", "index.rangeIndex.getKey", "index.rangeIndex.getKeyPrefixForType", "index.rangeIndex.getKeyPrefix", "index.rangeIndex.encodeValueAndId"}},
+		{"C11", []string{"internal..Encode", "internal..Decode", "internal..replaceTimes", "internal..removeLocalizedTimes", "internal.LocalizedTime.MarshalMsgpack", "internal.LocalizedTime.UnmarshalMsgpack",
+			"document..Encode", "document..Decode", "clover..saveDocument", "clover..getDocumentById"}},
+		{"C18", []string{"internal..processStructTag", "internal..isEmptyValue", "internal..normalizeStruct", "internal..normalizeSlice", "internal..getElemValueAndType", "internal..normalizeMap",
+			"internal..Normalize", "internal..createRenameMap", "internal..rename", "internal..getElemType", "internal..renameMapKeys", "internal..Convert",
+			"document..lookupField", "document.Document.Has", "document.Document.Get", "document.Document.Set", "document.Document.SetAll", "document.Document.Fields", "document.Document.Copy",
+			"document.Document.AsMap", "document.Document.ToMap", "document..NewDocumentOf", "document..newDocumentOf", "document.Document.Unmarshal", "util..MapKeys", "util..CopyMap"}},
+		{"C19 C04", []string{"clover.DB.ExportCollection", "clover.DB.ImportCollection", "clover..restoreExpiresAt", "clover.DB.createCollectionWith", "clover.DB.CreateCollectionByQuery"}},
+		{"C15", []string{"bbolt.boltTx.Set", "bbolt.boltTx.Get", "bbolt.boltTx.Delete", "bbolt.boltTx.Cursor", "bbolt.boltTx.Commit", "bbolt.boltTx.Rollback", "bbolt.boltTx.bucket", "bbolt.boltStore.Begin",
+			"bbolt.boltCursor.Seek", "bbolt.boltCursor.adjustSeek", "bbolt.boltCursor.Next", "bbolt.boltCursor.Valid", "bbolt.boltCursor.Item", "bbolt.boltCursor.Close",
+			"badger.badgerTx.Set", "badger..getItemValue", "badger.badgerTx.Get", "badger.badgerTx.Commit", "badger.badgerTx.Rollback", "badger.badgerTx.Cursor", "badger.badgerStore.Begin",
+			"badger.badgerCursor.Seek", "badger.badgerCursor.Next", "badger.badgerCursor.Valid", "badger.badgerCursor.Item", "badger.badgerCursor.Close"}},
 	}
+	wanted := map[string]bool{}
+	for _, g := range groups {
+		for _, f := range g.fns {
+			wanted[f] = true
+			for _, p := range strings.Fields(g.props) {
+				if !strings.Contains(" "+logicFns[f]+" ", " "+p+" ") {
+					logicFns[f] = strings.TrimSpace(logicFns[f] + " " + p)
+				}
+			}
+		}
+	}
+	seenLogic := map[string]bool{}
 	logic := map[string][]string{}
 	layout := []string{} // "pkg.func: <statements of the body>" for the functions that define the key layout and the type ranks
 	layoutFns := map[string]bool{"getCollectionKeyPrefix": true, "getCollectionKey": true, "getDocumentKeyPrefix": true, "getDocumentKey": true,
@@ -147,8 +198,11 @@ func main() {
 						if dcl.Body == nil {
 							continue
 						}
-						if prop, ok := logicFns[pn+"."+f.recv+"."+f.name]; ok {
-							logic[prop] = append(logic[prop], pn+"."+f.recv+"."+f.name+": "+fullStr(dcl.Body))
+						if props, ok := logicFns[pn+"."+f.recv+"."+f.name]; ok {
+							seenLogic[pn+"."+f.recv+"."+f.name] = true
+							for _, prop := range strings.Fields(props) {
+								logic[prop] = append(logic[prop], pn+"."+f.recv+"."+f.name+": "+fullStr(dcl.Body))
+							}
 						}
 						if layoutFns[f.name] {
 							stmts := []string{}
@@ -343,10 +397,18 @@ func main() {
 	strList("receiverWrites", "assignments through a method receiver (all packages)", recvWrites)
 	sort.Strings(layout)
 	strList("keyLayout", "the functions that define the key layout, the type ranks and the key encoding dispatch, statement by statement", layout)
-	for _, prop := range []string{"C02", "C08", "C09", "C17"} {
+	for _, prop := range []string{"C01", "C02", "C03", "C04", "C06", "C08", "C09", "C10", "C11", "C12", "C13", "C14", "C15", "C16", "C17", "C18", "C19"} {
 		sort.Strings(logic[prop])
-		strList("logic"+prop, "the decision logic behind "+prop+": full text of the functions that decide it (comments and layout removed)", logic[prop])
+		strList("logic"+prop, "the source text behind "+prop+": full text of the functions its model was transcribed from (comments and layout removed)", logic[prop])
 	}
+	missing := []string{}
+	for f := range wanted {
+		if !seenLogic[f] {
+			missing = append(missing, f)
+		}
+	}
+	sort.Strings(missing)
+	strList("logicMissing", "functions the model was transcribed from that the source no longer has (renamed or removed)", missing)
 	sb.WriteString("structure PanicSite where\n  file : String\n  fn : String\n  kind : String\n  expr : String\nderiving DecidableEq, Repr\n\n")
 	sb.WriteString("/-- unchecked type assertions and explicit panics, in source order -/\ndef panicSites : List PanicSite := [")
 	for i, s := range sites {
